@@ -1,2 +1,3 @@
 import ZixModel.Properties.C20
 import ZixModel.Properties.C09
+import ZixModel.Properties.C05
